@@ -24,7 +24,7 @@ domain, unrelated names) is never reported. A sampled live family starts pairs o
 each to report exactly the other (real announce(), receive loops, get_known_services()); a passive witness socket on the mDNS group counts the response datagrams of each peer, and a listener \
 that reports nothing in 3 consecutive rounds although the witness saw the other peer's records at least twice per round is a violation (a single incomplete round is inconclusive). Escape/unescape: bounded-exhaustive over {a . \\ e-acute space} up to length 7 (quick) / 8 (thorough) plus random Unicode. non-trivial = history \
 with at least one peer announcement or an escape string containing a dot or backslash; distinct = hash of the history / string",
-        assumptions: &["attribute keys are non-empty, free of '=' and do not differ only by case", "re-announcements repeat the same description", "TTLs are large (expiry is C20's subject), except that a peer may say goodbye with TTL 0 and advertise again at once"],
+        assumptions: &["attribute keys are non-empty and free of '='", "re-announcements repeat the same description", "TTLs are large (expiry is C20's subject), except that a peer may say goodbye with TTL 0 and advertise again at once"],
         exhaustive: false,
         min_distinct: 1000,
     }
@@ -61,7 +61,7 @@ impl Desc {
     }
 }
 
-const KEYS: [&str; 10] = ["a", "b", "path", "txtvers", "k", "key with space", "K2", "é", "x.y", ";"];
+const KEYS: [&str; 13] = ["a", "b", "path", "txtvers", "k", "key with space", "K2", "é", "x.y", ";", "K", "Path", "PATH"];
 
 fn gen_desc(r: &mut Rng, name: &str) -> Desc {
     let nip = *r.pick(&[0usize, 0, 1, 1, 2, 3, 5]);
@@ -96,7 +96,8 @@ fn gen_desc(r: &mut Rng, name: &str) -> Desc {
     let mut attrs: Vec<(String, Option<String>)> = Vec::new();
     for _ in 0..na {
         let k = r.pick(&KEYS).to_string();
-        if attrs.iter().any(|(k2, _)| k2.eq_ignore_ascii_case(&k)) {
+        // keys that differ only in letter case are different keys of the map
+        if attrs.iter().any(|(k2, _)| *k2 == k) {
             continue;
         }
         let v = match r.below(5) {
